@@ -170,6 +170,9 @@ func TestPropKernels(t *testing.T) {
 func TestRegress(t *testing.T) {
 	files, _ := os.ReadDir("regress")
 	for _, f := range files {
+		if strings.HasPrefix(f.Name(), "histories-") {
+			continue
+		}
 		var c Case
 		os.Setenv("VERIF_REPLAY", "regress/"+f.Name())
 		if _, err := stats.LoadReplay(&c); err != nil {
@@ -183,6 +186,10 @@ func TestRegress(t *testing.T) {
 }
 
 func TestReplay(t *testing.T) {
+	if stats.ReplayStage() == "histories" {
+		replayHistories(t)
+		return
+	}
 	var c Case
 	ok, err := stats.LoadReplay(&c)
 	if !ok {
